@@ -163,3 +163,30 @@ def apply_step(gfa, step):
         gfa.line(step[1]).delete(step[2])
     else:
         raise ValueError(step)
+
+
+def canon_ident(text, version):
+    from bounded import oracle
+    try:
+        r = oracle.tokenize(text, version)
+        if r.rt == "L" and version == "gfa1":
+            r.pos = oracle.link_canon(r.pos)
+        if r.rt == "U":
+            r.pos[1] = " ".join(sorted(r.pos[1].split(" ")))
+        return str(r.key())
+    except Exception:
+        return text
+
+
+def canon_snapshot(gfa):
+    """order-insensitive observation: version, identifier namespace, canonical content, and per line the multiset of its
+    reference targets and the SET of lines in each back-reference collection"""
+    from bounded import oracle
+    v = gfa.version
+    per = []
+    for x in registered(gfa):
+        cid = canon_ident(ident(x), v)
+        per.append((cid, x.virtual, tuple(sorted(canon_ident(ident(y), v) for y in field_refs(x))),
+                    tuple(sorted((k, tuple(sorted(canon_ident(ident(y), v) for y in _lines_in(lst)))) for k, lst in (x._refs or {}).items() if lst))))
+    _, content = oracle.view(str(gfa), v)
+    return dict(version=v, names=tuple(sorted(map(str, gfa.names))), content=tuple(sorted(map(str, content.elements()))), lines=tuple(sorted(per)))
